@@ -937,9 +937,9 @@ func TestC08(t *testing.T) {
 	rng := rand.New(rand.NewSource(seed))
 	out := hx.NewOut()
 	defer out.Close("correspondence: after every op <outcome kind | balances of 3 users + erc20 module + WFX contract in every denomination and ERC-20 contract + supplies | raw erc20 store indexes + bank metadata aliases + EnableErc20> against Model/C08U.lean; monitors convert_exact, I_sum, I_module, I_external, I_index, frame on real state; mixed transactions (direct token calls + precompile bridgeCall / crossChain on the same token in one EVM transaction) against the StateDB cache model Model/C08Cache.lean. non-trivial = distinct (op, outcome)")
-	nSeq := hx.N(10, 50)
+	nSeq := hx.N(14, 50)
 	nOps := 90
-	nMix := 40
+	nMix := 60
 	if hx.Tier() == "thorough" {
 		nOps = 180
 		nMix = 200
